@@ -46,6 +46,11 @@
 (* GenerateBitsTypes), not against the checked-in integers.go.  `wrong` here is  *)
 (* the cell under (VarUInteger n+1): its length field is one bit wider exactly   *)
 (* when n is a power of two.                                                     *)
+(*                                                                               *)
+(* The (## n) family (shape numbers NBase + i, i < 8): fields (## 8i+1) ..       *)
+(* (## 8i+8), each followed by the next and a closing Bool -- every n in 1..64,  *)
+(* so every width next to a machine word width and every multiple of 8 is there. *)
+(* `wrong` = the cell with each width rounded up to the next of 8/16/32/64.      *)
 EXTENDS TlbMini, Json, FiniteSets, TlChoice
 CONSTANTS Seed, Ns, PerSchema
 VARIABLE k
@@ -106,12 +111,19 @@ Vu(n)  == [t |-> "varuint", n |-> n]
 RECURSIVE IsPow2(_)
 IsPow2(n) == n = 1 \/ (n > 1 /\ n % 2 = 0 /\ IsPow2(n \div 2))
 VShape(m) == <<U(3), Vu(m), Bo>>
-IsFam(n)   == IsE(n) \/ IsA(n) \/ IsV(n)
+\* ---- the (## n) family: schema i holds n = 8i+1 .. 8i+8
+NBase  == 9300000
+NCount == 8
+IsN(n) == n >= NBase /\ n < NBase + NCount
+NShape(i) == [j \in 1..8 |-> N(8 * i + j)] \o <<Bo>>
+NextWord(n) == IF n <= 8 THEN 8 ELSE IF n <= 16 THEN 16 ELSE IF n <= 32 THEN 32 ELSE 64
+IsFam(n)   == IsE(n) \/ IsA(n) \/ IsV(n) \/ IsN(n)
 
 Shape(n) == IF n < NA THEN <<Alphabet[n + 1]>>
             ELSE IF IsE(n) THEN EShape(n - EBase)
             ELSE IF IsA(n) THEN AShape(n - ABase)
             ELSE IF IsV(n) THEN VShape(n - VBase + 1)
+            ELSE IF IsN(n) THEN NShape(n - NBase)
             ELSE LET ctx == B4(Seed) \o B4(n) \o <<78>>  len == 2 + Pick(ctx, 3)
                  IN [i \in 1..len |-> Alphabet[Pick(ctx \o <<i>>, NA) + 1]]
 
@@ -129,7 +141,8 @@ Inline(ty) == CASE ty.t = "ref" -> ty.of
                 [] OTHER -> ty
 OwnRef(ty) == Inline(ty) # ty
 \* the declaration every judge must refuse for values of shape n: E family ^ exchanged, A family unnamed ^ dropped
-WrongShape(n) == IF IsV(n) THEN <<U(3), Vu(n - VBase + 2), Bo>>
+WrongShape(n) == IF IsN(n) THEN [j \in 1..Len(Shape(n)) |-> IF Shape(n)[j].t = "nat" THEN N(NextWord(Shape(n)[j].n)) ELSE Shape(n)[j]]
+                 ELSE IF IsV(n) THEN <<U(3), Vu(n - VBase + 2), Bo>>
                  ELSE IF IsA(n) THEN [i \in 1..Len(Shape(n)) |-> IF i \in AnonIdx(n) THEN Inline(Shape(n)[i]) ELSE Shape(n)[i]]
                  ELSE SwapShape(Shape(n))
 
@@ -155,6 +168,7 @@ EiClass(ty) ==
   ELSE "Either-with-^-on-one-side-of-different-types"
 KLabel(ty) ==
   IF ty.t = "either" THEN EiClass(ty)
+  ELSE IF ty.t = "nat" /\ IsN(k) THEN (IF ty.n \in {8, 16, 32, 64} THEN "(## machine-word)" ELSE IF ty.n % 8 = 0 THEN "(## 8k)" ELSE "(## n)")
   ELSE IF ty.t = "varuint" THEN (IF IsPow2(ty.n) THEN "(VarUInteger 2^k)" ELSE "(VarUInteger n)")     \* two classes: the len field is ceil(log2 n) bits
   ELSE IF ty.t = "maybe" /\ ty.of.t = "either" /\ EiClass(ty.of) # TyText(ty.of) THEN EiClass(ty.of)     \* the class also when nested under Maybe
   ELSE TyText(ty)
@@ -280,7 +294,8 @@ Out(n) == LET S == SchemaOf(n)  vs == [j \in 1..PerSchema |-> VecOf(S, j)] IN
                          /\ ("wrong" \in DOMAIN vs[j] => ~Matches(S, Nm(vs[j].ty), vs[j].v, CellOf(vs[j].wrong)))
                     /\ (IsE(n) => ECovered(n, vs))
                     /\ (IsA(n) => ACovered(n, vs))
-                    /\ (IsV(n) => VCovered(n, vs))]
+                    /\ (IsV(n) => VCovered(n, vs))
+                    /\ (IsN(n) => \E j \in 1..Len(vs) : vs[j].ty = "Main" /\ "wrong" \in DOMAIN vs[j])]
 
 Init == k \in Ns
 Next == UNCHANGED k
